@@ -156,6 +156,28 @@ def run(ctx, rep):
         rep.ob('R20.2', 'gmt-only-in-julian-day', not others, 'the GMT offset is turned into a number only by the Julian-Day constructor'
                if not others else f'the GMT offset is also used numerically in {others[:3]}: times shift twice / differently')
 
+    # ---- R20.5 the result is a function of the arguments: no thread-local / static state on the computation path -----
+    STATEFUL = ('std::thread::LocalKey', 'std::sync::OnceLock', 'std::sync::LazyLock', 'std::cell::OnceCell', 'std::sync::Mutex',
+                'std::sync::RwLock', 'std::sync::atomic::', 'std::sync::Once::')
+    stateful = []
+    n_fn = 0
+    for p in sorted(ctx.reach(ctx.role('dt'))):
+        b = lib.bodies.get(p)
+        if b is None or b.derived:
+            continue
+        n_fn += 1
+        for _, t in b.calls():
+            n = callee_name(t) or ''
+            if any(k in n for k in STATEFUL):
+                stateful.append((p, n))
+        for blk in b.blocks:
+            for st_ in blk['stmts']:
+                if st_['k'] == 'assign' and '"static"' in str(st_['rv']).replace("'", '"'):
+                    stateful.append((p, 'static item'))
+    rep.floor('functions of the computation examined for hidden state', n_fn, 20)
+    rep.ob('R20.5', 'no-hidden-state', not stateful, 'no thread-local, static or lock-protected state is touched by the computation' if not stateful
+           else f'{last_seg(stateful[0][0])} uses {stateful[0][1]}: the result depends on earlier calls, not only on the arguments '
+           '(two calls that differ in the GMT offset can share a cached value)')
     # ---- R20.3 -------------------------------------------------------------------------------------------------
     elem, sid_f, ra_f, day_ctor = ephemeris_roles(ctx)
     rep.sample({'sidereal field': sid_f, 'right-ascension field': ra_f})
